@@ -291,3 +291,21 @@ mod tests {
     assert_eq!(r#"null(invocable with name 'Good bye message' not found)"#, value.to_string());
   }
 }
+
+#[cfg(dmntk_verif)]
+impl Workspace {
+  /// Verification hook: read-only projection of the workspace state:
+  /// `(namespace, name)` of stored definitions in order, sorted keys of the namespace index,
+  /// sorted keys of the name index and sorted keys of the deployed model evaluators.
+  #[allow(clippy::type_complexity)]
+  pub fn verif_snapshot(&self) -> (Vec<(String, String)>, Vec<String>, Vec<String>, Vec<String>) {
+    let stored = self.definitions.iter().map(|d| (d.namespace().to_string(), d.name().to_string())).collect();
+    let mut by_namespace: Vec<String> = self.definitions_by_namespace.keys().cloned().collect();
+    by_namespace.sort();
+    let mut by_name: Vec<String> = self.definitions_by_name.keys().cloned().collect();
+    by_name.sort();
+    let mut evaluators: Vec<String> = self.model_evaluators_by_name.keys().cloned().collect();
+    evaluators.sort();
+    (stored, by_namespace, by_name, evaluators)
+  }
+}
